@@ -65,6 +65,56 @@ def judge(ctx, hs, outs, tbl, prefix=""):
     return nsteps
 
 
+def index_part(ctx, tbl):
+    """GraphIndex.tla: vertex-field index registrations are per graph (listed for that graph only, gone with the
+    graph, not resurrected by a re-creation) and never touch the stored elements."""
+    res = ctx.tlc("store", "GraphIndex", "GraphIndex_4.cfg" if ctx.tier == "quick" else "GraphIndex_5.cfg", timeout=1500, count=False, workers=8,
+                  label="index registrations")
+    cases = res.msgs.get("ixhist", [])
+    if not cases:
+        raise Inconclusive("GraphIndex.tla emitted no histories")
+    cap = 4000 if ctx.tier == "quick" else 20000
+    if len(cases) > cap:
+        ctx.notes.append("%d index histories generated, a seeded sample of %d replayed" % (len(cases), cap))
+        cases = [cases[i] for i in sorted(ctx.rng.sample(range(len(cases)), cap))]
+    hs = [c["hist"] for c in cases]
+    # index calls carry label/field: pass the calls through unchanged
+    outs = replay(ctx, hs, tag="store_ix")
+    nsteps = judge(ctx, hs, outs, tbl, prefix="[index calls] ")
+    for i, c in enumerate(cases):
+        steps = outs[i].get("steps")
+        if not steps:
+            continue
+        for n, (want, st) in enumerate(zip(c["ix"], steps)):
+            want = want if isinstance(want, dict) else {}
+            bad = None
+            for g, regs in want.items():
+                real = (st["obs"].get(g) or {})
+                exp = sorted("%s|%s" % (p[0], p[1]) for p in regs)
+                got = sorted(real.get("indices") or [])
+                if exp != got:
+                    extra, missing = set(got) - set(exp), set(exp) - set(got)
+                    other = {"%s|%s" % (p[0], p[1]) for g2, r2 in want.items() if g2 != g for p in r2}
+                    if extra and extra <= other:
+                        bad = "lists the index registrations of another graph"
+                    elif extra:
+                        bad = "lists a registration that was removed (or never made)"
+                    else:
+                        bad = "does not list a registration that was made"
+                elif real.get("indices_named") is False:
+                    bad = "names another graph in its entries"
+                if bad:
+                    break
+            if bad:
+                ctx.diverge("store index listing: %s" % bad,
+                            "after call %d the index registrations listed for a graph differ from those of GraphIndex.tla" % (n + 1),
+                            dict(history=[x["call"] for x in c["hist"][: n + 1]], specified=want,
+                                 observed={g: (st["obs"].get(g) or {}).get("indices") for g in ("g1", "g2")}))
+                break
+    ctx.cov["index_histories"] = len(cases)
+    return nsteps
+
+
 def run(ctx):
     tbl = obs_table(ctx)
     hs = histories(ctx)
@@ -78,6 +128,7 @@ def run(ctx):
         nsteps += judge(ctx, sub, o2, tbl, prefix="[%s] " % drv)
     if others:
         ctx.notes.append("histories also replayed on %s (%d each)" % (", ".join(others), len(sub)))
+    nsteps += index_part(ctx, tbl)
     for h in hs[:: max(1, len(hs) // 4)]:
         ctx.sample([x["call"] for x in h])
     ctx.cov.update(evaluations=nsteps, distinct_nontrivial=len(hs), traces_validated_against_impl=len(hs),
